@@ -35,7 +35,7 @@ def table_seeds():
         m = json.load(open(mp))
         db = m.get('detected_by') or {}
         ob = (db.get('obligations') or [{}])[0]
-        out.append('| %s | %s | %s | %s | %s |' % (d, m['property'], ', '.join(db.get('units', [])) or 'NOT CAUGHT',
+        out.append('| %s | %s | %s | %s | %s |' % (d, m['property'], ', '.join(db.get('units', [])) or ('UNDECIDED (exit 2: unit timed out)' if db.get('exit_code') == 2 else 'NOT CAUGHT'),
                    (ob.get('text', '')[:110]).replace('|', '/'), '%s of %s' % (db.get('replayed_natively', 0), db.get('violation_lines', 0))))
     return '\n'.join(out)
 
